@@ -5,6 +5,7 @@ import Martian.Props.C06.Normalise
 import Martian.Props.C06.Sched
 import Martian.Props.C06.Facts
 import Martian.Props.C06.Fault
+import Martian.Props.C06.Chain
 /-!
 C06 — Forged certificates verify for the requested host under the configured CA.
 Only property theorems and non-vacuity examples live here.
